@@ -104,8 +104,8 @@ class Driver(object):
         from clikit.ui.components import Table
 
         t = Table(style)
-        t.set_header_row(["h1", "h2"])
-        t.add_rows([["a", "bb"], ["ccc", "d"]])
+        t.set_header_row(["h1", "h2", "h3"])
+        t.add_rows([["a", "bb", "eeee"], ["ccc", "d", "f"]])
         io = self.io(ANSI_IO, 40)  # ANSI: cell and rule styles are part of what a table shows
         try:
             t.render(io)
@@ -288,8 +288,8 @@ def random_ops(rng, n):
             ops.append({"op": "custom", "s": rng.randint(1, nstyles), "field": f, "value": v})
         elif r < 0.55 and nstyles:
             how = rng.choice(ALIGN_OPS + ["set_column_alignment"])
-            ops.append({"op": "align", "s": rng.randint(1, nstyles), "field": how, "col": rng.randint(0, 1), "a": rng.randint(0, 2),
-                        "seq": [rng.randint(0, 2) for _ in range(rng.randint(0, 2))] if how == "column_alignments" else []})
+            ops.append({"op": "align", "s": rng.randint(1, nstyles), "field": how, "col": rng.randint(0, 2), "a": rng.randint(0, 2),
+                        "seq": [rng.randint(0, 2) for _ in range(rng.randint(0, 3))] if how == "column_alignments" else []})
         else:
             c = rng.choice(COMPONENTS + ["trace", "trace", "table"])
             ops.append({"op": "render", "comp": c, "inst": rng.choice([1, 1, 2]), "io": rng.choice(ios)})
@@ -325,7 +325,7 @@ def run_styles(ctx):
     ctx.assumptions += [
         "styles: customisation = every in-place change TableStyle / BorderStyle offer: assigning padding_char, cell_format, "
         "header_cell_format, cell_style, header_cell_style, default_column_alignment, column_alignments of a TableStyle, calling "
-        "set_column_alignment(col, a) (columns 0..1), assigning any of the 15 characters or the style of its border_style",
+        "set_column_alignment(col, a) in any order (columns 0..2 of a 3-column table), assigning any of the 15 characters or the style of its border_style",
         "styles: 'component' = Table, Paragraph, LabeledParagraph, EmptyLine, NameVersion, ApplicationHelp, CommandHelp, ExceptionTrace "
         "(BlockLayout, which empties itself when rendered, is a layout helper and not included)",
         "styles: every behaviour starts from a fresh process (class-level caches are emptied by the driver between behaviours)",
